@@ -99,7 +99,7 @@ func init() {
 					}
 				case *ast.ReturnStmt:
 					if len(x.Results) == 2 {
-						rows = append(rows, [2]string{guard, c.src(rel, x.Results[0]) + " | " + squash(c.src(rel, x.Results[1]))})
+						rows = append(rows, [2]string{guard, c.src(rel, x.Results[0]) + " | " + binlogSquash(c.src(rel, x.Results[1]))})
 						ast.Inspect(x.Results[0], func(y ast.Node) bool {
 							if se, ok := y.(*ast.SelectorExpr); ok && exprName(se.X) == "mysql" {
 								typeNames[se.Sel.Name] = true
@@ -123,7 +123,7 @@ func init() {
 		}
 
 		// ---- numeric values of the mysql.Type* constants (vitess, version pinned by /repo/go/go.mod)
-		vdir, err := vitessDir(c.repo)
+		vdir, err := binlogVitessDir(c.repo)
 		if err != nil {
 			return err
 		}
@@ -137,7 +137,7 @@ func init() {
 		for n := range typeNames {
 			names = append(names, n)
 		}
-		sortStrings(names)
+		binlogSortStrings(names)
 		for _, n := range names {
 			v, err := venv.natOf(n)
 			if err != nil {
@@ -197,6 +197,44 @@ func init() {
 			c.defStringList("endian_"+fn[0]+"_"+fn[1], calls)
 		}
 
+		// ---- binary JSON: how encodeJsonObject writes one key entry (offset, then the key length bytes)
+		const jrel = "go/libraries/doltcore/sqle/binlogreplication/binlog_json_serialization.go"
+		jf, err := c.file(jrel)
+		if err != nil {
+			return err
+		}
+		jfd := findFunc(jf, "", "encodeJsonObject")
+		if jfd == nil || jfd.Body == nil {
+			return fmt.Errorf("encodeJsonObject not found")
+		}
+		var keyEntry []string
+		ast.Inspect(jfd.Body, func(x ast.Node) bool {
+			as, ok := x.(*ast.AssignStmt)
+			if !ok || len(as.Lhs) != 1 || len(as.Rhs) != 1 || exprName(as.Lhs[0]) != "keyEntriesBuffer" {
+				return true
+			}
+			keyEntry = append(keyEntry, binlogSquash(c.src(jrel, as.Rhs[0])))
+			return true
+		})
+		if len(keyEntry) == 0 {
+			return fmt.Errorf("encodeJsonObject: no assignment to keyEntriesBuffer")
+		}
+		c.defStringList("jsonKeyEntryWrites", keyEntry)
+		kofd := findFunc(jf, "", "calculateInitialObjectKeysOffset")
+		if kofd == nil || kofd.Body == nil {
+			return fmt.Errorf("calculateInitialObjectKeysOffset not found")
+		}
+		var kolits []int64
+		ast.Inspect(kofd.Body, func(x ast.Node) bool {
+			if bl, ok := x.(*ast.BasicLit); ok && bl.Kind == token.INT {
+				if v, err := strconv.ParseInt(bl.Value, 0, 64); err == nil {
+					kolits = append(kolits, v)
+				}
+			}
+			return true
+		})
+		c.defNatList("lits__calculateInitialObjectKeysOffset", kolits)
+
 		// ---- row serialization: NULL cells contribute no bytes; bitmap from mysql.NewServerBitmap
 		const rrel = "go/libraries/doltcore/sqle/binlogreplication/binlog_row_serialization.go"
 		rf, err := c.file(rrel)
@@ -218,11 +256,11 @@ func init() {
 	})
 }
 
-var wsRe = regexp.MustCompile(`\s+`)
+var binlogWsRe = regexp.MustCompile(`\s+`)
 
-func squash(s string) string { return wsRe.ReplaceAllString(s, " ") }
+func binlogSquash(s string) string { return binlogWsRe.ReplaceAllString(s, " ") }
 
-func sortStrings(s []string) {
+func binlogSortStrings(s []string) {
 	for i := 1; i < len(s); i++ {
 		for j := i; j > 0 && s[j] < s[j-1]; j-- {
 			s[j], s[j-1] = s[j-1], s[j]
@@ -232,7 +270,7 @@ func sortStrings(s []string) {
 
 // vitessDir resolves the module directory of github.com/dolthub/vitess at the version /repo's
 // go.mod requires (module cache: $GOMODCACHE, $GOPATH/pkg/mod or ~/go/pkg/mod).
-func vitessDir(repo string) (string, error) {
+func binlogVitessDir(repo string) (string, error) {
 	gm, err := os.ReadFile(filepath.Join(repo, "go", "go.mod"))
 	if err != nil {
 		return "", err
